@@ -323,13 +323,13 @@ func newLoadTasksModel(c *Ctx) *loadTasksModel {
 	}
 	m.optsCall = calls[0]
 	m.newTask = calls[0]
-	if calls[0].Parent() != m.fn {
-		// the call of the helper stands for the construction in loadTasks; the
-		// helper must hand NewTask's results through unchanged
-		site, _ := m.reg.Lift(calls[0]).(*ssa.Call)
+	// a helper that hands NewTask's results through unchanged (newSourceTask ends in `return NewTask(…)`): its
+	// call stands for the construction, in whichever function of the region calls it
+	for cur := calls[0]; cur.Parent() != m.fn; {
+		site, _ := m.reg.site[cur.Parent()].(*ssa.Call)
 		passThrough := site != nil
 		if site != nil {
-			for _, r := range returnsOf(calls[0].Parent()) {
+			for _, r := range returnsOf(cur.Parent()) {
 				vals := returnValues(r)
 				if len(vals) != 2 {
 					passThrough = false
@@ -339,18 +339,19 @@ func newLoadTasksModel(c *Ctx) *loadTasksModel {
 					continue // an error return: the task result is not used
 				}
 				// a success return hands out NewTask's task, with NewTask's error (or nil after testing it)
-				if vals[0] != extractOf(calls[0], 0) {
+				if vals[0] != extractOf(cur, 0) {
 					passThrough = false
 				}
-				if !isNilConst(vals[1]) && vals[1] != extractOf(calls[0], 1) {
+				if !isNilConst(vals[1]) && vals[1] != extractOf(cur, 1) {
 					passThrough = false
 				}
 			}
 		}
 		if !passThrough {
-			fatalf("anchor: the helper that calls NewTask does not return its results unchanged")
+			break
 		}
 		m.newTask = site
+		cur = site
 	}
 	vs, ok := varargValues(m.optsCall.Call.Args[0])
 	if !ok {
